@@ -15,30 +15,31 @@ import (
 
 // HistCfg parameterises a random history on one file.
 type HistCfg struct {
-	Name       string
-	Seed       int64
-	PageSize   uint32
-	MaxPages   uint64 // 0 = unbounded
-	InitMeta   uint32
-	Prealloc   bool
-	WALLimit   uint
-	Overflow   bool // allow transactions with EnableOverflowArea
-	Txs        int
-	MaxOps     int
-	AbortPct   int // percentage of transactions ending in Rollback/Close
-	ReopenPct  int // percentage of transactions followed by close+reopen
-	ReadAll    bool
-	NoIO       bool // do not record I/O events
-	BigAlloc   int  // upper bound for AllocN
-	FreeBias   int  // percentage boost for frees
-	GrowMeta   bool
-	KeepSmall  int // try to keep the number of live pages below this bound (0 = none)
-	WritePct   int // percentage of freshly allocated pages that are written at once (default 80)
-	ReadEvery  int    // read everything after every n-th transaction
-	MaxExtra   uint64 // bytes added to the max size (max size not a multiple of the page size)
-	FailCommitPct int // percentage of commits that hit an injected write/sync failure
-	OnTxEnd    func(e *fenv.Env, i int)
-	BeforeTxEnd func(e *fenv.Env, i int) bool // return false to leave the transaction open (caller ends it)
+	Tick          *int64 // progress counter for the watchdog (set by the caller)
+	Name          string
+	Seed          int64
+	PageSize      uint32
+	MaxPages      uint64 // 0 = unbounded
+	InitMeta      uint32
+	Prealloc      bool
+	WALLimit      uint
+	Overflow      bool // allow transactions with EnableOverflowArea
+	Txs           int
+	MaxOps        int
+	AbortPct      int // percentage of transactions ending in Rollback/Close
+	ReopenPct     int // percentage of transactions followed by close+reopen
+	ReadAll       bool
+	NoIO          bool // do not record I/O events
+	BigAlloc      int  // upper bound for AllocN
+	FreeBias      int  // percentage boost for frees
+	GrowMeta      bool
+	KeepSmall     int    // try to keep the number of live pages below this bound (0 = none)
+	WritePct      int    // percentage of freshly allocated pages that are written at once (default 80)
+	ReadEvery     int    // read everything after every n-th transaction
+	MaxExtra      uint64 // bytes added to the max size (max size not a multiple of the page size)
+	FailCommitPct int    // percentage of commits that hit an injected write/sync failure
+	OnTxEnd       func(e *fenv.Env, i int)
+	BeforeTxEnd   func(e *fenv.Env, i int) bool // return false to leave the transaction open (caller ends it)
 }
 
 func (c HistCfg) String() string {
@@ -170,6 +171,7 @@ func RunHistory(c HistCfg) (tr *core.Trace, env *fenv.Env) {
 func runHistoryWith(c HistCfg, afterOpen func(e *fenv.Env), atEnd func(e *fenv.Env)) (tr *core.Trace, env *fenv.Env) {
 	rng := rand.New(rand.NewSource(c.Seed))
 	e := fenv.New(c.Name, c.options())
+	e.Tick = c.Tick
 	e.IO = !c.NoIO
 	tr = &core.Trace{Name: c.Name, Meta: c.String()}
 	env = e
